@@ -129,12 +129,40 @@ func caseC17(c *Ctx) {
 		for i := 0; i < 30 && !b.Failed(); i++ {
 			b.Do(gb.Next())
 		}
-		// loading into a world that has or had entities must be refused
+		// loading into a world that has or had entities must be refused - and the refusal must leave that world as it
+		// was: a big population, a tiny dump, then the world goes on (relation targets and high ids are removed)
+		if c.Case%2 == 0 {
+			for i := 0; i < 3 && !b.Failed(); i++ {
+				b.Do(&Op{K: "NewBatch", Add: gb.subsetAny(gb.nonRels(), 2), N: 60 + c.R.Intn(40)})
+			}
+		}
 		if len(b.M.Alive) > 0 || b.M.Created > 0 {
-			if !mustPanic(func() { b.W.LoadEntities(&load) }) {
+			refused := load
+			if c.Case%2 == 0 {
+				refused = helperDump(c.R, 2+c.R.Intn(5)).d
+			}
+			before := b.PublicSnapshot()
+			var core string
+			if HooksOn {
+				core, _ = hookShape(b.W)
+			}
+			if !mustPanic(func() { b.W.LoadEntities(&refused) }) {
 				a.fail("load.accepted", "LoadEntities accepted on a world that has or had entities (alive %d, created %d) without Reset", len(b.M.Alive), b.M.Created)
+			} else if after := b.PublicSnapshot(); after != before {
+				a.fail("load.refused.changed", "the refused LoadEntities changed the world: %s", firstDiff(before, after))
+			} else if HooksOn {
+				if c2, _ := hookShape(b.W); c2 != core {
+					a.fail("load.refused.changed", "the refused LoadEntities changed hidden state: %s", firstDiff(core, c2))
+				}
 			}
 			a.Cov.N["load_refused"]++
+			pb := p.Clone()
+			pb.MaxEnts = len(b.M.Alive) + 20
+			pb.Scale(4, "RemoveEntity", "BatchRemoveEntities", "BuilderNew", "RelSet")
+			gb2 := NewGen(c.R, b, pb)
+			for i := 0; i < 40 && !b.Failed() && !a.Failed(); i++ {
+				b.Do(gb2.Next())
+			}
 		}
 		b.Do(&Op{K: "Reset"})
 	}
